@@ -1,7 +1,7 @@
 """C02 — rolling drivers call back once per position with exactly the right window."""
 CFG = dict(
     bins=["c02"],
-    # harness-pl/ (tevec with the `polars` feature), thorough tier only — see tools/propcfg/C07.py
+    # harness-pl/ (tevec with the `polars` feature), both tiers (the key keeps its historical name) — see tools/propcfg/C07.py
     bins_thorough_pl=["c02pl"],
     imports=["Run.RunC02"],
     exhaustive=True,
@@ -39,6 +39,6 @@ CFG = dict(
                "degenerate two-series combinations with the identity of the failing check).",
     level_note="Trusted: Coq kernel; the hand-written model of view.rs/vec.rs/ndarray.rs driver bodies and of std's "
                "repeat_n/chain/zip/enumerate; the harness and comparator. Polars backend: exercised by c02pl (separate crate "
-               "harness-pl/) in the thorough tier only.",
+               "harness-pl/) in both tiers.",
     trusted=["the model of std iterator adaptors (repeat_n, chain, zip, enumerate) used by the iterator bodies"],
 )
